@@ -15,7 +15,8 @@ MIN_COUNTERS = dict(quick={'jacobian_shape_asserted': 1200, 'affine_entries_asse
                            'matrix_valued_asserted': 200, 'gradient_asserted': 200, 'directionaldiff_asserted': 150,
                            'length_one_output_cases': 100},
                     thorough={'affine_entries_asserted': 200000})
-RULE = ('n in 1..8, m in 1..6, k in 1..4; families: affine A x + b (f returns a length-m vector, including m = 1), matrix-valued '
+RULE = ('x also as list / tuple / plain float, Python ints with integer affine maps, float32 arrays. ' 
+        'n in 1..8, m in 1..6, k in 1..4; families: affine A x + b (f returns a length-m vector, including m = 1), matrix-valued '
         'f(x)[i,l] = sum_j T[i,j,l] x_j + u_i(x) v_l with asymmetric T (result (m, n, k)), smooth sin(Ax) * exp(Bx) with the analytic '
         'Jacobian; all five methods, orders 2 and 4, default steps or a scalar step, x of both signs; Gradient on scalar f '
         '(x as vector or n1 x n2 array) and directionaldiff against Gradient . v/|v|. distinct non-trivial = (m, n, k, method, '
